@@ -1,4 +1,4 @@
 From Coq Require Import Extraction ExtrOcamlBasic.
 From PV Require Import Lib.ExtBase C01.FS C03.Model.
 Extraction "model.ml" ext_base_z ext_base_n ext_base_nat ext_base_res ext_base_list
-  mk_state dir_to_list inos_to_list run_api_i run_copy_i run_write_reader_i run_aliases run_multi_image_i run_import_images_i.
+  mk_state dir_to_list inos_to_list run_api_i run_copy_i run_write_reader_i run_aliases run_multi_image_i run_import_images_i run_incr_api_i.
